@@ -7,6 +7,7 @@ import (
 	"verif/prop/c06"
 	"verif/prop/c09"
 	"verif/prop/c12"
+	"verif/prop/c15"
 	"verif/prop/c16"
 	"verif/prop/c18"
 )
@@ -24,6 +25,7 @@ var All = map[string]Prop{
 	"C06": {Level: "model_checking", Check: c06.Check, Replay: c06.Replay},
 	"C09": {Level: "model_checking", Check: c09.Check, Replay: c09.Replay},
 	"C12": {Level: "model_checking", Check: c12.Check, Replay: c12.Replay},
+	"C15": {Level: "model_checking", Check: c15.Check, Replay: c15.Replay},
 	"C16": {Level: "model_checking", Check: c16.Check, Replay: c16.Replay},
 	"C18": {Level: "model_checking", Check: c18.Check, Replay: c18.Replay},
 }
